@@ -103,6 +103,7 @@ fn main() {
         }
     }
     let mut small = asys::grid::with_small_lane_buf(&cfgs);
+    small.extend(asys::grid::with_small_lane_in_buf(&cfgs));
     small.extend(cfgs);
     let cfgs = small;
     run_grid(&ctx, GridSpec { name: "as-grid-d1".into(), cfgs, bound: 1, max_exec_per_cfg: 20_000, wall_cap_s: if quick { 25.0 } else { 600.0 } });
